@@ -58,5 +58,24 @@ def runner_task(module_names: list[str] | None, force: bool = True, cache_enable
 	return task
 
 
+def loop_task(plan: list[tuple], module_names: list[str] | None, cache_enabled: bool | None = True):
+	"""A build loop: several command-line runs issued from ONE interpreter (a watcher, a test session), sources edited in between.
+	plan = [('run',) | ('write', relpath, bytes, mtime_ns)]."""
+	def task(seams: Any) -> dict[str, Any]:
+		from rogw.tranp.bin.transpile import TranspileApp
+		k = 0
+		for st in plan:
+			if st[0] == 'write':
+				with seams._open(st[1], 'wb') as f:
+					f.write(st[2])
+				os.utime(st[1], ns=(st[3], st[3]))
+			else:
+				seams.event('step', k)
+				k += 1
+				make_app(module_names, True, cache_enabled).run(TranspileApp.run)
+		return {}
+	return task
+
+
 def md5(text: str) -> str:
 	return hashlib.md5(text.encode('utf-8')).hexdigest()
